@@ -700,6 +700,95 @@ func (sh *shard) execStale(doProbe bool) {
 	sh.execUpd(tc, false, doProbe)
 }
 
+// ---------- the settlement interceptor registered by the real acceptUpdate ----------
+
+// execSubFinal: the honest client holds a parent channel and a sub-channel of it (restored, the parent
+// locks the sub-channel's funds). The peer sends the FINAL update of the sub-channel, which also moves
+// funds (either direction, or nothing); the user accepts, and the real acceptUpdate registers the
+// settlement interceptor at the parent. Then the parent receives the withdrawal built from the
+// sub-channel's final balances (must be accepted automatically) or from its balances before the final
+// update (must be refused). The interceptor the model is given carries the sub-channel's real current
+// balances, read from its machine after the accept.
+func (sh *shard) execSubFinal(doProbe bool) {
+	f := sh.f
+	r := f.r
+	peer, me := f.peer(), f.me
+	// the sub-channel: same participants, other nonce, no app
+	sp, err := channel.NewParams(uint64(1+r.Intn(100)), f.params.Parts, channel.NoApp(), f.g.Nonce(), false, false, channel.Aux{})
+	if err != nil {
+		panic(err)
+	}
+	sbals := make(channel.Balances, len(f.assets))
+	for i := range sbals {
+		sbals[i] = []channel.Bal{big.NewInt(int64(1 + r.Intn(40))), big.NewInt(int64(1 + r.Intn(40)))}
+	}
+	sub0 := &channel.State{ID: sp.ID(), Version: uint64(1 + r.Intn(20)), App: channel.NoApp(), Data: channel.NoData(),
+		Allocation: channel.Allocation{Assets: f.assets, Backends: make([]wallet.BackendID, len(f.assets)), Balances: sbals}}
+	// the parent locks exactly the sub-channel's funds
+	pcur := f.genState(r.Intn(2), false)
+	k := r.Intn(len(pcur.Locked) + 1)
+	sa := *channel.NewSubAlloc(sp.ID(), sbals.Sum(), nil)
+	pcur.Locked = append(pcur.Locked[:k:k], append([]channel.SubAlloc{sa}, pcur.Locked[k:]...)...)
+	f.restore(channel.Acting, channel.Transaction{}, f.fullTx(pcur))
+	peers := make([]map[wallet.BackendID]wire.Address, 2)
+	peers[me], peers[peer] = f.h.Addr, f.p.Addr
+	stx := channel.Transaction{State: sub0, Sigs: make([]wallet.Sig, 2)}
+	stx.Sigs[me], _ = channel.Sign(f.h.Acc, sub0, 0)
+	stx.Sigs[peer], _ = channel.Sign(f.p.Acc, sub0, 0)
+	sub, err := f.h.C.VerifRestoreChannel(&source{idx: channel.Index(me), params: sp, current: stx, phase: channel.Acting}, f.ch, peers)
+	if err != nil {
+		panic(err)
+	}
+	// the final update of the sub-channel
+	fin := sub0.Clone()
+	fin.Version++
+	fin.IsFinal = true
+	dir := []string{"to-me", "to-me", "to-peer", "to-peer", "nothing"}[r.Intn(5)]
+	for i := range fin.Balances {
+		from, to := peer, me
+		if dir == "to-peer" {
+			from, to = me, peer
+		}
+		if dir != "nothing" {
+			amt := big.NewInt(1 + r.Int63n(fin.Balances[i][from].Int64()))
+			fin.Balances[i][from] = new(big.Int).Sub(fin.Balances[i][from], amt)
+			fin.Balances[i][to] = new(big.Int).Add(fin.Balances[i][to], amt)
+		}
+	}
+	fsig, _ := channel.Sign(f.p.Acc, fin, 0)
+	fm := f.upd(fin, peer, fsig)
+	env, ok := roundTrip(&wire.Envelope{Sender: f.p.Addr, Recipient: f.h.Addr, Msg: &fm})
+	if !ok {
+		return
+	}
+	f.h.resetAsked(vAccept)
+	f.ob.take()
+	out, _ := syncCall(func() { f.h.C.VerifHandleChannelUpdate(f.h, f.p.Addr, env.Msg.(client.ChannelUpdateProposal)) }, fastWatchdog)
+	_, _, scur := sub.VerifSnapshot()
+	f.ob.take()
+	f.h.PR.take()
+	if out != "RET" || scur.State == nil || !scur.State.IsFinal {
+		sh.count("sf-setup", "final-not-accepted", "sf-setup/failed")
+		f.burnt = true
+		return
+	}
+	real := scur.State.Balances.Clone() // what the sub-channel's machine holds now
+	pre := sub0.Balances
+	cur := f.snapshot().Current.State
+	variant := []string{"final", "prefinal"}[r.Intn(2)]
+	var s *channel.State
+	if variant == "final" {
+		s = settleState(cur, sp.ID(), real)
+	} else {
+		s = settleState(cur, sp.ID(), pre)
+	}
+	m := f.signedUpd(s, peer)
+	tc := tcase{class: "sf-" + variant + "/" + dir, accept: true, msg: &m, site: "client.Channel.acceptUpdate/registerSubChannelSettlement",
+		settle: []icept{{ID: sp.ID(), Bals: real, Awaited: true, Pre: true}}}
+	sh.execUpd(tc, false, doProbe)
+	f.burnt = true // the client holds a second channel: start the next history from a fresh one
+}
+
 // ---------- the UpdateResponder used more than once ----------
 
 // execResp: the responder of a request is called like the virtual-channel handlers and the settlement
@@ -948,6 +1037,10 @@ func runShard(prop string, seed int64, idx int, n int, slow int, realOpen, unawa
 				sh.execUpd(f.fundingCase(cur), false, doProbe)
 			}
 		case pick < w[2]:
+			if r.Intn(2) == 0 {
+				sh.execSubFinal(doProbe)
+				continue
+			}
 			if len(cur.Locked) == 0 || s.Phase != channel.Acting {
 				f.actingContext(1 + r.Intn(3))
 				cur = f.snapshot().Current.State
